@@ -352,9 +352,14 @@ def random_pod_history(rng, hid, steps=6):
                         ops.append(eps(svc))
             elif r < 0.55:
                 if (svc, n) not in pods:
-                    ops.append(op_pod(svc, n, group=grp(n + (1 if rng.random() < 0.3 else 0))))
+                    # a pod that has an address is listed by the Endpoints of its Service, ready or not, from the start
                     pods[(svc, n)] = False
-                    ops.append(eps(svc, ["e1", "e2", "e4"]))
+                    withn = [e for e in sorted(EPS) if n in members(e) and ok(svc, e)]
+                    if withn:
+                        ops.append(op_pod(svc, n, group=grp(n + (1 if rng.random() < 0.3 else 0))))
+                        ops.append(eps(svc, withn))
+                    else:
+                        del pods[(svc, n)]
             elif r < 0.8:
                 ops.append(eps(svc))
             else:
